@@ -446,8 +446,12 @@ def run_case(desc, ctx):
                 _compare_pool(ctx, pool, shadows, None, "copy", None)
             elif kind == "merge" and len(pool) < 6:
                 idx = [j] + [rng.randrange(len(pool)) for _ in range(rng.randint(1, 2))]
-                if rng.random() < 0.3:
+                r_m = rng.random()
+                if r_m < 0.3:
                     idx = [j, j]
+                elif r_m < 0.5:
+                    idx = [j]  # the smallest admissible list: one mesh (the library does this itself for a forest with one tree, one edge to cylindrify ...)
+                ctx.cls("merge:%d_meshes%s" % (len(idx), "_same_mesh_twice" if idx == [j, j] else ""))
                 ok, g = ctx.call("merge", M.mesh.merge, [pool[i] for i in idx], monitor="merge")
                 ctx.obs("merge", "merge")
                 want_V = np.vstack([shadows[i].V for i in idx])
